@@ -23,6 +23,11 @@ class Undef(Exception):
     """evaluation is undefined (error, or meaning not fixed by the documentation)"""
 
 
+class Unclaimed(Undef):
+    """the documentation does not fix the meaning here: no equivalence is claimed — but this is NOT an evaluation error
+    (so it is no licence for a rewriting function to raise)"""
+
+
 # ---------------------------------------------------------------------------
 # AST access helpers (structural, independent of the query API under test)
 # ---------------------------------------------------------------------------
@@ -123,7 +128,7 @@ class Heap:
 
     def rlist(self, lo, hi, exmin, exmax) -> List[Any]:
         """the abstract finite list a non-literal range denotes as a quantifier domain"""
-        raise Undef('range enumeration not provided')
+        raise Unclaimed('range enumeration not provided')
 
 
 class DictHeap(Heap):
@@ -168,7 +173,7 @@ class DictHeap(Heap):
         key = (lo, hi, exmin, exmax)
         if key in self._rlists:
             return self._rlists[key]
-        raise Undef('range enumeration not provided')
+        raise Unclaimed('range enumeration not provided')
 
 
 def _is_num(v) -> bool:
@@ -218,12 +223,12 @@ def _arith(op: str, a, b):
         if op == '**':
             if isinstance(a, Fraction):
                 if b.denominator != 1:
-                    raise Undef('non-integer exponent')
+                    raise Unclaimed('non-integer exponent')
                 n = int(b)
                 if n < 0 and a == 0:
                     raise Undef('0 ** negative')
                 if abs(n) > 64:
-                    raise Undef('exponent too large')
+                    raise Unclaimed('exponent too large')
                 return a ** n
             r = a ** b
             if isinstance(r, complex):
@@ -333,13 +338,13 @@ def _int_range(c: _Compound) -> List[int]:
     """integer elements of a range with literal integer bounds lo <= hi (the only ranges whose contents are claimed)"""
     lo, hi = c.lo, c.hi
     if not (isinstance(lo, int) and isinstance(hi, int)) or isinstance(lo, bool) or isinstance(hi, bool):
-        raise Undef('range contents only defined for integer literal bounds')
+        raise Unclaimed('range contents only defined for integer literal bounds')
     if lo > hi:
-        raise Undef('inverted range')
+        raise Unclaimed('inverted range')
     a = lo + (1 if c.exmin else 0)
     b = hi - (1 if c.exmax else 0)
     if b - a + 1 > RANGE_ENUM_MAX:
-        raise Undef('range too large for the bound')
+        raise Unclaimed('range too large for the bound')
     return list(range(a, b + 1))
 
 
@@ -363,7 +368,7 @@ def _in_range(x, c: _Compound) -> bool:
 
 def _py_eq(a, b) -> bool:
     if not _same_kind(a, b):
-        raise Undef('= on values of different kinds')
+        raise Unclaimed('= on values of different kinds')
     if _is_num(a):
         _num(a), _num(b)
         return _num_eq(a, b)
@@ -436,7 +441,7 @@ def _agg_elems(arg, heap, env) -> List[Any]:
     if c.kind == 'array':
         return c.elems
     if not c.listable:
-        raise Undef('aggregate over a non-literal range')
+        raise Unclaimed('aggregate over a non-literal range')
     return _int_range(c)
 
 
@@ -499,14 +504,20 @@ def _py_call(e, heap, env):
                 if name == 'float':
                     return v if isinstance(v, Fraction) else float(v)
                 return math.trunc(v)
-            raise Undef(f'{name} of a string is not claimed')
+            if isinstance(v, str):
+                # Python's own conversion of the denoted string: a numeral converts, anything else is an evaluation error
+                try:
+                    return int(v.strip()) if name == 'int' else float(v.strip())
+                except ValueError:
+                    raise Undef(f'{name} of a non-numeric string')
+            raise Unclaimed(f'{name} of a non-primitive is not claimed')
         if name == 'str':
             v = vs[0]
             if isinstance(v, str):
                 return v
             if isinstance(v, bool) or isinstance(v, (int, float)):
                 return str(v)
-            raise Undef('str of exact rational not claimed')
+            raise Unclaimed('str of exact rational not claimed')
         if name in ('ceil', 'floor'):
             v = _num(vs[0])
             return math.ceil(v) if name == 'ceil' else math.floor(v)
@@ -525,7 +536,7 @@ def _py_call(e, heap, env):
             return table[name](fl[0])
         if name == 'atan2':
             return math.atan2(fl[0], fl[1])
-        raise Undef(f'function {name} is uninterpreted')
+        raise Unclaimed(f'function {name} is uninterpreted')
     except (ValueError, ZeroDivisionError, OverflowError, IndexError):
         raise Undef(f'{name} failed')
 
